@@ -83,6 +83,52 @@ func runC20(c *Ctx, w *World, r *Report) {
 		}
 		r.Check(len(bad) == 0, "R-ADDITIVE", w.FuncName(sizeof), w.Pos(sizeof.Pos()), strings.Join(bad, "; "), "no write to non-fresh memory")
 	}
+	// R-VALUEONLY: what is counted is decided by the value alone
+	r.Rule("R-VALUEONLY", "every branch of the recursive sizing function is decided by the value being measured (its kind, nil-ness, length, iteration state): no branch condition depends on another parameter (a depth budget, an option, a visited set) - such a branch stops or alters the descent for some well-formed acyclic value, whose parts then drop out of the structural sum")
+	{
+		bad := ""
+		nif := 0
+		for _, b := range sizeof.Blocks {
+			ifi, ok := b.Instrs[len(b.Instrs)-1].(*ssa.If)
+			if !ok {
+				continue
+			}
+			nif++
+			seen := map[ssa.Value]bool{}
+			var dep func(v ssa.Value) string
+			dep = func(v ssa.Value) string {
+				if v == nil || seen[v] {
+					return ""
+				}
+				seen[v] = true
+				switch x := v.(type) {
+				case *ssa.Parameter:
+					if x != sizeof.Params[0] {
+						return "parameter " + x.Name()
+					}
+					return ""
+				case *ssa.FreeVar:
+					return "captured variable " + x.Name()
+				case *ssa.Const, *ssa.Global, *ssa.Function, *ssa.Builtin:
+					return ""
+				}
+				if ins, ok := v.(ssa.Instruction); ok {
+					for _, op := range ins.Operands(nil) {
+						if op != nil && *op != nil {
+							if d := dep(*op); d != "" {
+								return d
+							}
+						}
+					}
+				}
+				return ""
+			}
+			if d := dep(ifi.Cond); d != "" {
+				bad = fmt.Sprintf("the branch at %s depends on %s, not only on the value being measured", w.InstrPos(ifi), d)
+			}
+		}
+		r.Check(bad == "", "R-VALUEONLY", w.FuncName(sizeof), w.Pos(sizeof.Pos()), bad, fmt.Sprintf("%d branches, each decided by the measured value alone", nif))
+	}
 	r.Units["sizeof_blocks"] = len(sizeof.Blocks)
 
 	hasKindSwitch := false
